@@ -269,9 +269,9 @@ def run(tier, rep):
             untamed += 1
             continue
         exact = exprs.exact_derivative(r['jet'], n)
-        sigma = exprs.local_scale(r['jet'], n, a)
+        sigma = c01.generic_sigma(r, n, a)
         floor = ENV['derivative'][m][str(n)].get(kind, 1.0) * sigma if str(n) in ENV['derivative'][m] else sigma
-        s0j = max(abs(t) for t in exprs.jet_floats(r['jet']))
+        s0j = max([abs(t) for t in exprs.jet_floats(r['jet'])] + [r.get('iscale', 0.0)])
         for v, e in zip(vals, est):
             if not np.isfinite(v):
                 continue
